@@ -97,7 +97,7 @@ Proof. split; [repeat constructor|vm_compute; reflexivity]. Qed.
    server guarantees and what IsEqual() relies on by design; [cert_manager c = false]: the conversion of ACME
    challenge Ingresses into routes is not part of this proof (it is part of the run-time evaluation). *)
 Theorem C03_applied_configuration_is_current :
-  forall c es, cert_manager c = false -> Forall ev_role es -> k3_hist es ->
+  forall c es, cm_hist c es -> Forall ev_role es -> k3_hist es ->
   forall k, lookup k (shadow_run c init [] es) = option_map attrs (lookup k (get_resources (run c es))).
 Proof. exact applied_configuration_is_current. Qed.
 Print Assumptions C03_applied_configuration_is_current.
